@@ -157,7 +157,7 @@ _SIM = re.compile(r"states checked: (\d+)|The number of states generated: (\d+)"
 
 def run(module, cfg=None, workers=16, env=None, timeout=600, metadir=None, coverage=True,
         simulate=None, depth=None, seed=None, extra=None, deadlock=None, dfs=False,
-        cwd=None, keep_out=False):
+        cwd=None, keep_out=False, cfg_text=None):
     """Run TLC on spec/<module>.tla with spec/<cfg>.cfg.  Returns TlcResult.
 
     Raises MachineryFailure on anything that is not "completed" or "property violated".
@@ -168,11 +168,17 @@ def run(module, cfg=None, workers=16, env=None, timeout=600, metadir=None, cover
         metadir = os.path.join("/verif/out", "_meta_%s_%d" % (cfg, os.getpid()))
     shutil.rmtree(metadir, ignore_errors=True)
     os.makedirs(metadir, exist_ok=True)
-    jopts = ["-XX:+UseParallelGC", "-Xss16m"]
+    cfg_path = cfg + ".cfg"
+    if cfg_text is not None:
+        # configuration generated by the driver (constants swept from python)
+        cfg_path = os.path.join(os.path.dirname(metadir.rstrip("/")), "%s.cfg" % cfg)
+        with open(cfg_path, "w") as f:
+            f.write(cfg_text)
+    jopts = ["-XX:+UseParallelGC", "-Xss16m", "-DTLA-Library=" + SPEC_DIR]
     if dfs:
         jopts.append("-Dtlc2.tool.queue.IStateQueue=StateDeque")
     cmd = ["java"] + jopts + ["-cp", JAR + ":" + DEPS, "tlc2.TLC", "-workers", str(workers),
-                               "-metadir", metadir, "-noGenerateSpecTE", "-config", cfg + ".cfg"]
+                               "-metadir", metadir, "-noGenerateSpecTE", "-config", cfg_path]
     if coverage and not simulate:
         cmd += ["-coverage", "1"]
     if simulate:
